@@ -30,6 +30,22 @@ def loop_of(w, fn_name, line_hint=None):
     return out
 
 
+def report_detached(rep, w, fn_name) -> bool:
+    """No best-so-far scan was found: if a winner is recorded under a comparison with a carried value that is not
+    updated exactly there, that is the violation (not an unrecognised construct)."""
+    from ..rules_scan import find_detached_scans
+    hit = False
+    for li in w.loops.values():
+        if li.fn.name != fn_name or li.kind != "for":
+            continue
+        for m, c, end in find_detached_scans(w, li):
+            hit = True
+            rep.fn("BEST-running", li.fn, f"the running best '{m}' is updated exactly when a candidate is accepted", False,
+                   f"candidates are accepted under '{show(c)[:100]}' but '{m}' becomes '{show(end)[:100]}' on every path: "
+                   "the comparison is no longer against the best value seen so far", line=li.line)
+    return hit
+
+
 def check_range(rep, fn, li, lo_ok, hi):
     dom = li.domain
     ok = False
@@ -63,6 +79,8 @@ def check_knn(chk, rep, repo):
     w = model_walk(repo, "KNNSupervisedOPF", "fit")
     G = ("attr", ("self",), "subgraph")
     loops = loop_of(w, "_learn")
+    if not loops and report_detached(rep, w, "_learn"):
+        return 1
     if len(loops) != 1:
         raise AnalysisError(f"KNNSupervisedOPF._learn: expected one selection loop, found {len(loops)}")
     li = loops[0]
@@ -122,6 +140,8 @@ def check_uns(chk, rep, repo):
     w = model_walk(repo, "UnsupervisedOPF", "fit")
     G = ("attr", ("self",), "subgraph")
     loops = loop_of(w, "_best_minimum_cut")
+    if not loops and report_detached(rep, w, "_best_minimum_cut"):
+        return 1
     if len(loops) != 1:
         raise AnalysisError(f"UnsupervisedOPF._best_minimum_cut: expected one selection loop, found {len(loops)}")
     li = loops[0]
